@@ -224,9 +224,37 @@ def readErr (m : Memory) (idx : Nat) (r : Read) : List String :=
   | some msg => [s!"op {idx} {r.what}: {msg}"]
   | none => []
 
+/-! ### SHRAM working buffers of a kernel operation
+
+SHRAM is a row of 1 KiB banks. A block operation owns the IFM-buffer partition `[0, IB_END)` and, unless it is
+elementwise, the accumulator partition `[AB_START, top)`; `top` is the start of the lookup-table window when
+the operation uses a table, otherwise the end of the SHRAM it may use. Configurations with more than 16 banks
+keep the last two banks (the table window) out of that; the 16-bank configurations do not, so there an
+operation without a table destroys the table window. Which bytes of a partition the hardware really touches
+is not architecturally visible, so the whole partition counts as overwritten (hand-written; this is also
+what `lut.optimize_high_level_cmd_stream` assumes when it re-issues the table DMA). -/
+
+def shramBankBytes : Nat := 1024
+
+/-- SHRAM bytes a kernel operation without a lookup table may use -/
+def Env.usableShram (e : Env) : Nat := if e.shramBytes > 16 * shramBankBytes then e.shramBytes - 2 * shramBankBytes else e.shramBytes
+
+def isElementwise (b : BlockOp) : Bool := b.kind == .elementwise
+
+def shramTop (e : Env) (b : BlockOp) : Nat :=
+  if (lutIndex b.activation).isSome then min e.lutBase e.usableShram else e.usableShram
+
+def clobberPieces (ibEnd abStart top : Nat) (mac : Bool) : List Piece :=
+  (if 0 < min ibEnd top then [⟨0, min ibEnd top, 0⟩] else []) ++
+  (if mac = true ∧ abStart < top then [⟨abStart, top - abStart, 0⟩] else [])
+
+def shramClobber (e : Env) (b : BlockOp) : List Piece :=
+  clobberPieces (b.ibEnd * shramBankBytes) (b.abStart * shramBankBytes) (shramTop e b) (!isElementwise b)
+
 def stepBlock (e : Env) (m : Memory) (idx : Nat) (b : BlockOp) (i : OpInfo) : List String × Memory :=
   ((blockReads e b i).flatMap (readErr m idx),
-   writePieces m b.ofm.region i.ofm.tid (fmPiecesS b.ofm i.ofm.y0 i.ofm.x0 i.ofm.c0 i.ofm.shifts) 0)
+   writePieces (writePieces m REGION_SHRAM junkTid (shramClobber e b) 0)
+     b.ofm.region i.ofm.tid (fmPiecesS b.ofm i.ofm.y0 i.ofm.x0 i.ofm.c0 i.ofm.shifts) 0)
 
 def stepDma (e : Env) (m : Memory) (idx : Nat) (d : DmaOp) (i : DmaInfo) : List String × Memory :=
   ((dmaReads e d i).flatMap (readErr m idx),
